@@ -66,6 +66,7 @@ RULES = [
  ('freezes to convergence when iterative', 'C08', 'iterative/frozen-circular-block-not-converged/range (block read through a range frozen after one sweep)'),
  ('array formula which produces a reference', 'C05', 'real-workbook/value-depends-on-order-or-access-path/* (lookup.xlsx Offset!F43:I45 {=OFFSET(...)}: range address gave AddressRange objects, members gave values)'),
  ('left half built by a failed build', 'C01', 'stale-value + stale-value/xlsx-stored-result-of-cell-built-after-write (cell built before a failed build kept its stored result; its precedents were built after a write)'),
+ ('rows and columns of an AddressRange list their own cells', 'C11', 'enumerate/rows-taken-first/wrong-cell + enumerate/cols-taken-first/wrong-cell (list(rng.rows) then reading the rows gave the last row every time)'),
  ('an array and an error value', 'C13', 'array-formula-member-not-pointwise/array-with-error-valued-scalar'),
 ]
 
